@@ -17,6 +17,7 @@ def toSituation : String → Except String Situation
   | "presentMatching" => pure .presentMatching
   | "presentDrifted" => pure .presentDrifted
   | "presentNoOwnerRef" => pure .presentNoOwnerRef
+  | "absentConflict" => pure .absentConflict
   | s => throw s!"bad situation {s}"
 
 def actionName : Action → String
@@ -36,14 +37,16 @@ def handle (j : J) : Except String J := do
       | none => pure none
     let fs : FlagSpec :=
       ⟨optBool f "readonly", optBool f "owned", optBool f "namespaced", optBool f "createEnabled",
-       optBool f "deleteIfExists", upd, optInt f "createDelay", optInt f "updateDelay"⟩
+       optBool f "deleteIfExists", upd, optInt f "createDelay", optInt f "updateDelay",
+       (optBool f "createOverlay").getD false, (optBool f "pluralGiven").getD true⟩
     let c := fs.cfg (← j.getBool "precond")
     let s ← toSituation (← j.getStr "sit")
     let (a, o) := ResourceFn.decide c s
     let d := match delaySrc c s with
       | some src => J.str (toString (fs.delay src))
       | none => J.null
-    pure (.obj [("action", .str (actionName a)), ("outcome", .str (outcomeName o)), ("delay", d)])
+    pure (.obj [("action", .str (actionName a)), ("outcome", .str (outcomeName o)), ("delay", d),
+                ("discovers", .bool (discovers c))])
   | op => throw s!"bad op {op}"
 
 end Koreo.Driver.C07
